@@ -188,7 +188,7 @@ template<class AD> struct Runner
 	typedef typename AD::Set Set;
 	typedef std::map<uint32_t, uint32_t> Twin;
 
-	static KVs contents(const C& c, std::string& flag)
+	static KVs contents(const C& c, std::string& flag, bool sorted = true)
 	{
 		KVs r; std::set<uint32_t> seen;
 		for (auto it = c.GetBegin(); it != c.GetEnd(); ++it)
@@ -199,7 +199,7 @@ template<class AD> struct Runner
 			if (r.size() > c.GetCount() + 8) { flag = "!long"; break; }
 		}
 		if (r.size() != c.GetCount()) flag = "!count";
-		std::sort(r.begin(), r.end());
+		if (sorted) std::sort(r.begin(), r.end());
 		return r;
 	}
 	static std::string show(const KVs& r)
@@ -332,6 +332,14 @@ template<class AD> struct Runner
 					std::string flag; KVs r = contents(tok == "T" ? c : t, flag);
 					emit(show(r));
 					oracle(flag.empty() && same(r, tok == "T" ? tw : tt), "traverse");
+				}
+				else if (tok == "O")
+				{	// the exact iteration order (the model mirrors pvInc / pvMove)
+					std::string flag; KVs r = contents(c, flag, false);
+					std::string o = "[" + show(r) + "]";
+					emit(o);
+					std::sort(r.begin(), r.end());
+					oracle(flag.empty() && same(r, tw), "order-traverse");
 				}
 				else if (tok == "N") { emit(std::to_string(c.GetCount())); oracle(c.GetCount() == tw.size(), "count"); }
 				else if (tok == "Y") { C copy(c); c = std::move(copy); emit("u"); oracle(c.GetCount() == tw.size(), "copy"); }
